@@ -239,13 +239,14 @@ fn tq_remove_purge() {
         if lookup(&[&pre.recent, &pre.frequent, &pre.ghost], k).is_none() {
             assert!(r.is_none() && post == pre, "[C02.remove] removing a key that is not retained returns None and changes nothing");
         }
-        assert!(!c.contains(&k) && holders(&[&post.recent, &post.frequent, &post.ghost], k) == 0, "[C02.absent] a removed key is retained nowhere afterwards");
+        assert!(!c.contains(&k) && holders(&[&post.recent, &post.frequent], k) == 0, "[C02.absent] a removed key is no longer resident");
         let mut exp = pre;
         if let Some(i) = pre.frequent.pos(k) { exp.frequent = pre.frequent.remove_at(i); }
         if let Some(i) = pre.recent.pos(k) { exp.recent = pre.recent.remove_at(i); }
-        if let Some(i) = pre.ghost.pos(k) { exp.ghost = pre.ghost.remove_at(i); }
-        assert!(post == TqAbs { recent: exp.recent.canon(), frequent: exp.frequent.canon(), ghost: exp.ghost.canon(), ..pre },
-            "[C08.remove][C02.map] remove takes out exactly that key; order of everything else kept");
+        assert!(post.recent == exp.recent.canon() && post.frequent == exp.frequent.canon(), "[C08.remove][C02.map] remove takes out exactly that key from the resident queues; order of everything else kept");
+        // the statement says nothing about ghosts of a removed key: the ghost list is unchanged or has lost exactly that key
+        let ghost_wo = match pre.ghost.pos(k) { Some(i) => pre.ghost.remove_at(i), None => pre.ghost.canon() };
+        assert!(post.ghost == pre.ghost.canon() || post.ghost == ghost_wo, "[C08.remove] remove leaves the other ghosts alone");
     }
     c.verif_forget();
 }
